@@ -423,7 +423,35 @@ theorem tableInfo_none (l : List Feat) (key : Str) (h : ∀ g ∈ l, cmpCI g.key
   rw [infoLoop_none key _ (fun g hg => h g (mem_listSort cmpFeatures hg))]
   rfl
 
-/-! ## 8. witnesses: the hypotheses are forced, and they are satisfiable -/
+/-! ## 8. no type confusion (the fix of finding C18-F3) -/
+
+/-- the parsers (`isLanguageTag(k, keySize)`) and the readers (`isLanguageTag(k, MAXSTRING)`)
+    agree on every key: a value is stored as a subtag list exactly when it is read as one -/
+theorem langTagParsed_eq_isLangKey (key : Str) : langTagParsed key = isLangKey key := by
+  unfold langTagParsed isLangKey isLanguageTagN
+  by_cases h : key.length ≤ MAXSTRING
+  · simp [Nat.min_eq_left h]
+  · have h8 : ¬ key.length ≤ 2048 := h
+    have hm : min key.length MAXSTRING = 2048 := by
+      show min key.length 2048 = 2048
+      omega
+    have l1 : kLanguage.length = 8 := rfl
+    have l2 : kRegion.length = 6 := rfl
+    have l3 : kLocale.length = 6 := rfl
+    simp only [Nat.min_self, hm, l1, l2, l3]
+    have e1 : (key.length == 8) = false := by simp; omega
+    have e2 : (key.length == 6) = false := by simp; omega
+    simp [e1, e2]
+
+/-- the three names of the model are the ones extracted from `isLanguageTag` in the C source -/
+theorem lang_keys_extracted : LANG_KEYS = [kLanguage, kRegion, kLocale] := by decide
+
+/-- so a proper prefix of one of the three words is an ordinary key everywhere -/
+example : langTagParsed [108] = false ∧ isLangKey [108] = false ∧                      -- "l"
+    langTagParsed [114, 101, 103] = false ∧ langTagParsed [108, 111, 99] = false ∧     -- "reg", "loc"
+    langTagParsed [76, 65, 78, 71, 85, 65, 71, 69] = true ∧ isLangKey kLocale = true := by decide  -- "LANGUAGE"
+
+/-! ## 9. witnesses: the hypotheses are forced, and they are satisfiable -/
 
 section witnesses
 
